@@ -30,7 +30,11 @@ func loadMutants(dir string) ([]mutant, error) {
 	}
 	sort.Strings(files)
 	var out []mutant
+	only := os.Getenv("RIGOCHECK_MUTANTS") // development aid: substring filter
 	for _, f := range files {
+		if only != "" && !strings.Contains(filepath.Base(f), only) {
+			continue
+		}
 		fh, err := os.Open(f)
 		if err != nil {
 			return nil, err
